@@ -12,7 +12,8 @@ EXPLANATION = (
     "Extract computes parameters/returns from a flow summary collected by grammar visitors.  R03.1: every construct "
     "that binds a name in the current scope flows to the collector's write-recording primitive.  R03.2/R03.3: every "
     "conditionally executed / loop child list is traversed inside the collector's conditional / loop context manager "
-    "(read from the With statements enclosing the traversal in each handler).  R03.4: the return/yield counter has "
+    "(read from the With statements enclosing the traversal in each handler).  R03.7: those context managers restore "
+    "the state they toggle to its previous value (or count), because handlers nest.  R03.4: the return/yield counter has "
     "handlers for every generator-making constructor and for Return.  R03.6: the suite walker used for placing "
     "extracted definitions wraps every statement-list field of every compound statement in a Suite.  The oracle is "
     "the running interpreter's grammar plus the binding/conditional/loop/generator tables.  The set algebra on the "
@@ -111,6 +112,30 @@ def check(ctx, res) -> None:
     if not cond_m or not loop_m:
         raise AnalysisError(f"anchor=collector context managers (conditional/loop) not found: {mgrs}")
     res.analysed["context_managers"] = {"conditional": sorted(cond_m), "loop": sorted(loop_m)}
+
+    # ---- R03.7 context managers nest (handlers nest: an If inside an If): the state they toggle must be restored to its
+    # previous value (save/restore) or be a counter (+=/-=), never reset to a constant
+    for mname in sorted(cond_m | loop_m):
+        m = coll.methods[mname]
+        for attr in sorted(mgrs[mname]):
+            stores = [n for n in walk_local(m.node) if isinstance(n, (ast.Assign, ast.AugAssign))
+                      and any(is_self_attr(t, attr) for t in (n.targets if isinstance(n, ast.Assign) else [n.target]))]
+            fin = [n for t in walk_local(m.node) if isinstance(t, ast.Try) for s_ in t.finalbody for n in [s_, *ast.walk(s_)] if n in stores]
+            ok = None
+            if fin:
+                f0 = fin[-1]
+                if isinstance(f0, ast.AugAssign):
+                    ok = any(isinstance(s_, ast.AugAssign) and type(s_.op) is not type(f0.op) for s_ in stores)
+                elif isinstance(f0.value, ast.Constant):
+                    ok = False
+                elif isinstance(f0.value, ast.Name):
+                    saved = [n for n in walk_local(m.node) if isinstance(n, ast.Assign) and isinstance(n.targets[0], ast.Name)
+                             and n.targets[0].id == f0.value.id and is_self_attr(n.value, attr)]
+                    ok = bool(saved)
+            res.add("R03.7", f"{mname}|{attr}", ok, m.where,
+                    f"{mname} restores self.{attr} to its previous value on exit (nesting-safe)" if ok else
+                    f"{mname} resets self.{attr} to a constant on exit: handlers nest (an if inside an if), so after an inner block the rest of the "
+                    "enclosing block is analysed with the flag cleared -- a name assigned there counts as definitely written and extract returns an unbound local")
 
     def field_ctx_ok(c: str, fields: List[str], need: Set[str]) -> Optional[List[str]]:
         """fields of c whose traversal is NOT inside one of the `need` context managers"""
